@@ -127,13 +127,16 @@ def make_machine(which, base_dir):
 
             @rule(group=st.sampled_from(GROUPS), fmt=st.sampled_from(["csv", "parquet"]), descending=st.booleans(),
                   n_runs=st.integers(1, 8), tie_pool=st.sampled_from([0, 0, 2, 3, 5]),
-                  rows=st.lists(st.tuples(floats, st.integers(0, 6)), min_size=1, max_size=40),
+                  rows=st.lists(st.tuples(st.one_of(floats, st.sampled_from([0.0, -0.0, 1.0, -1.0, 0.5, -0.25]),
+                                                    st.integers(-4, 4).map(float)), st.integers(0, 6)),
+                                min_size=1, max_size=40),
                   extra_types=st.lists(st.sampled_from(TYPES), min_size=0, max_size=2))
             def make_runs(self, group, fmt, descending, n_runs, tie_pool, rows, extra_types):
                 runs = [[] for _ in range(n_runs)]
                 for rid, (sc, where) in enumerate(rows):
                     if tie_pool:
-                        sc = float(int(sc) % tie_pool)  # few distinct values -> exact ties within and across runs
+                        # few distinct values straddling zero -> exact ties within and across runs
+                        sc = float(int(sc) % tie_pool - tie_pool // 2)
                     runs[(where + rid) % n_runs if where < 5 else 0].append([sc, rid])
                 runs = [r for r in runs if r]
                 self._do("make_runs", group=group, fmt=fmt, runs=runs, descending=descending, extra_types=extra_types)
